@@ -34,7 +34,7 @@ def expr(rng, depth, ints=True, need_len=False):
         k = rng.choice([0, 1, 2, 3, 3])
         return "S %d %s%s" % (k, expr(rng, depth - 1, ints, True), "".join(" " + arg(rng) for _ in range(k)))
     if r < 0.55 and not need_len:
-        return "F %d %s" % (rng.randrange(5), expr(rng, depth - 1, True, False))
+        return "F %d %s" % (rng.randrange(6), expr(rng, depth - 1, True, False))
     if r < 0.70:
         return "M %d %s" % (rng.randrange(3), expr(rng, depth - 1, True, need_len))
     if ints:
